@@ -27,7 +27,8 @@ pub fn generate_qa_report(
     qa_items.sort_by_key(|(pattern, _)| pattern_order.iter().position(|p| p == pattern));
 
     for item in qa_items {
-        if item.1.len() > 0 {
+        //a pattern is rendered when it has at least one finding, ie. a file with at least one line
+        if item.1.iter().any(|(_, lines)| lines.len() > 0) {
             let qa_target = item.0;
             let mut matches = item.1;
             matches.sort();
